@@ -302,7 +302,7 @@ class Ctx:
             self.inconclusive.append(f"counterexample for {role} did not reproduce natively (encoding disagreement?): {json.dumps(rp)[:600]}")
         return v
 
-    def report_obs(self, role, text, model_desc, test_body, expected_obs, inject_into='src/lib.rs', profiles=('dev',)):
+    def report_obs(self, role, text, model_desc, test_body, expected_obs, inject_into='src/lib.rs', profiles=('dev',), native_oracle=None):
         """Observation-equality replay: the native test prints `VERIF-OBS <observation>`; the counterexample is
         reproduced iff that observation equals the one the engine predicted for the same concrete input."""
         for v in self.violations:
@@ -317,6 +317,15 @@ class Ctx:
                 native = mm.group(1).strip()
                 break
         reproduced = native is not None and native == expected_obs.strip()
+        if not reproduced and native is not None and native_oracle is not None:
+            # the native run may differ from the engine's prediction in ways the model does not fix (iteration order of a hash map):
+            # the counterexample is still confirmed if the native observation itself breaks the property-level oracle
+            try:
+                if native_oracle(native) is False:
+                    reproduced = True
+                    rp['reproduced_by'] = 'property-level oracle evaluated on the native observation (differs from the engine prediction, e.g. hash-map iteration order)'
+            except Exception as e:   # noqa
+                rp['oracle_error'] = str(e)
         rp['native_observation'], rp['engine_observation'], rp['reproduced'] = native, expected_obs, reproduced
         rdir = os.environ.get('VERIF_REPLAY_DIR', os.path.join(VERIF, 'replays'))
         os.makedirs(rdir, exist_ok=True)
